@@ -114,12 +114,23 @@ def _key(ctx, F, rule='AGREE-C15a'):
         ctx.bad(rule, wr, 'append_track does not sort by the tuple (timestamp, frame_id) before writing', detail='writer-sort-key')
     # reader: comparisons leading to the "not sorted" rejection
     rels = set()
-    for c in lib.comparisons(rd):
-        a, b = c.sa(), c.sb()
-        fa = {f for o, f in a.fields if o == 'TimeIndexEntry'}
-        fb = {f for o, f in b.fields if o == 'TimeIndexEntry'}
-        if fa and fa == fb and len(fa) == 1:
-            rels.add((list(fa)[0], c.rel if c.rel in ('<', '==', '>', '!=', '<=', '>=') else c.rel))
+    # the order test may be written inline or in a bool helper (`sorts_before(&entry, &prev)`); in a helper the last operand of
+    # `a || (b && c)` is a plain comparison statement, not a branch, so both forms are collected
+    hosts = [rd] + [F.fns[c.local_callee] for c in rd.calls() if c.local_callee in F.fns and not F.fns[c.local_callee].is_closure and F.fns[c.local_callee].local_ty(0) == 'bool']
+    BIN = {'Lt': '<', 'Le': '<=', 'Gt': '>', 'Ge': '>=', 'Eq': '==', 'Ne': '!='}
+    for hfn in hosts:
+        if hfn is not rd:
+            ctx.touch(hfn, len(hfn.blocks))
+        triples = [(c.sa(), c.sb(), c.rel) for c in lib.comparisons(hfn)]
+        for bb, i, st in hfn.stmts():
+            rv = st['rv']
+            if rv['k'] == 'bin' and rv['op'] in BIN and hfn.local_ty(st['lhs']['l']) == 'bool':
+                triples.append((lib.slice_back(hfn, [rv['a']], through_calls=False, at=(bb, i)), lib.slice_back(hfn, [rv['b']], through_calls=False, at=(bb, i)), BIN[rv['op']]))
+        for a, b, rel in triples:
+            fa = {f for o, f in a.fields if o == 'TimeIndexEntry'}
+            fb = {f for o, f in b.fields if o == 'TimeIndexEntry'}
+            if fa and fa == fb and len(fa) == 1:
+                rels.add((list(fa)[0], rel))
     need = {('timestamp', '<'), ('timestamp', '=='), ('frame_id', '<')}
     ctx.evaluations += len(rels)
     norm = {(f, r) for f, r in rels} | {(f, lib.NEG[r]) for f, r in rels if False}
